@@ -24,6 +24,7 @@ RULE = ("API level (virtual clock): real Throttle / StreamThrottle / ThrottleStr
         "connect] under user A, USER B, then RETR/STOR: the duration obeys B's limit (lower and upper bound) or is unthrottled "
         "when B has none.  distinct = distinct traces/configurations; "
         "non-trivial = at least one positive limit applies.")
+RULE += ("  " + 'Also (round 6): 8-20 transfers of about one block each, one after the other in one session, at every level and in both directions: the total duration has the lower bound (bytes - one block per stream in flight) / L.')
 ASSUMPTIONS = ["virtual time of the simulated loop; eps = half a byte per reset fold plus float slack",
                "the bound is cumulative since the first limited I/O (an idle period earns credit), as the statement says"]
 REQUIRED_MONITORS = ["bound_checks", "delay_checks", "unlimited_ops", "e2e_bound_checks", "e2e_duration", "relogin_duration", "relogin_shared"]
@@ -223,6 +224,7 @@ async def e2e(net, hyg, plan):
     try:
         size = plan["size"]
         content = payload_bytes(size, 1)
+        ntrans = plan.get("transfers", 1)      # transfers per session, one after the other on one control connection
         nsess = plan["sessions"]
         ukw = {k[2:]: v for k, v in plan["limits"].items() if k.startswith("u_")}
         skw = {k[2:]: v for k, v in plan["limits"].items() if k.startswith("s_")}
@@ -243,17 +245,19 @@ async def e2e(net, hyg, plan):
                 await c.connect("127.0.0.1", w.port)
                 await c.login("u1" if i < plan["same_user"] else "u2")
                 t0 = loop.time()
-                if plan["direction"] == "download":
-                    got = bytearray()
-                    async with c.download_stream(f"/f{i}.bin") as s:
-                        async for b in s.iter_by_block(plan["block"]):
-                            got += b
-                    ok = bytes(got) == content
-                else:
-                    async with c.upload_stream(f"/up{i}.bin") as s:
-                        for off in range(0, size, plan["block"]):
-                            await s.write(content[off:off + plan["block"]])
-                    ok = w.tree().get(f"/up{i}.bin") == content
+                ok = True
+                for j in range(ntrans):
+                    if plan["direction"] == "download":
+                        got = bytearray()
+                        async with c.download_stream(f"/f{i}.bin") as s:
+                            async for b in s.iter_by_block(plan["block"]):
+                                got += b
+                        ok = ok and bytes(got) == content
+                    else:
+                        async with c.upload_stream(f"/up{i}_{j}.bin") as s:
+                            for off in range(0, size, plan["block"]):
+                                await s.write(content[off:off + plan["block"]])
+                        ok = ok and w.tree().get(f"/up{i}_{j}.bin") == content
                 durations.append((i, loop.time() - t0, ok))
                 await c.quit()
             await asyncio.gather(*[one(i) for i in range(nsess)])
@@ -310,6 +314,7 @@ async def e2e(net, hyg, plan):
             direction_keys = [k for k, v in plan["limits"].items() if v and
                               (("write" in k) == (plan["direction"] == "download") if k[0] in "su" else
                                ("read" in k) == (plan["direction"] == "download"))]
+            size = size * ntrans
             need = [(size * sharing(k) / plan["limits"][k], k) for k in direction_keys]
             if need:
                 tight, kk = max(need)
@@ -320,6 +325,10 @@ async def e2e(net, hyg, plan):
                                         f"{sharing(kk)} session(s)) needs {tight:.3f}s, the unthrottled run {base_total:.3f}s"})
                 for t_need, k in need:
                     allowance = (2 * sharing(k) + 2) * max(plan["block"], 8192)
+                    if ntrans > 1:
+                        # many transfers of at most one block each: one block in flight per stream, a session has its
+                        # control stream and one data stream at a time
+                        allowance = (2 * sharing(k) + 1) * (plan["size"] + 1)
                     lower = (size * sharing(k) - allowance) / plan["limits"][k] * 0.95
                     if lower > 0 and thr_total < lower:
                         viol.append({"key": f"faster-than-shared-limit-allows:{k[2:]}",
@@ -517,6 +526,15 @@ def gen_cases(tier, seed):
         nsess = rng.choice([1, 1, 2, 3])
         plans.append({"kind": "e2e", "seed": seed * 7 + i, "level": level, "direction": d, "limits": lim, "sessions": nsess,
                       "same_user": rng.randint(1, nsess), "size": rng.choice([1000, 20000, 60000]), "block": rng.choice([512, 8192])})
+    # many small transfers of one session: what one data connection leaves unpaid is owed by the next one
+    for level in levels:
+        for d in ("download", "upload"):
+            for nsess in ((1, 2) if tier == "thorough" else (1,)):
+                k = rng.choice([8, 12, 20])
+                block = rng.choice([2048, 8192])
+                plans.append({"kind": "e2e", "seed": seed * 7 + len(plans), "level": level, "direction": d,
+                              "limits": levels[level](rng.choice([4, 8]) * block, d), "sessions": nsess, "same_user": nsess,
+                              "size": block + rng.choice([0, 0, 1, -1]), "block": block, "transfers": k})
     rel = []
     for order in (["fast", "slow"], ["slow", "fast"], ["slow", "slower"], ["slower", "slow"]):
         for when in ("after_data", "after_pasv"):
